@@ -153,7 +153,11 @@ func editCatalogue() []editClass {
 		n.Exts = append(n.Exts[:i:i], n.Exts[i+1:]...)
 	})
 	entP("ext-reorder", func(r *Rng, t *EntitySpec) {
-		t.Exts = []ExtSpec{genExt(r, "keyUsage", true), genExt(r, "extendedKeyUsage", true)}
+		// structured content on both: two raw extensions with equal bytes and flag would turn the
+		// swap into the "kind with identical raw bytes" finding under another label
+		t.Exts = nil
+		ensureExt(r, t, "keyUsage")
+		ensureExt(r, t, "extendedKeyUsage")
 	}, func(r *Rng, n *EntitySpec) { n.Exts[0], n.Exts[1] = n.Exts[1], n.Exts[0] })
 	entP("ext-critical", func(r *Rng, t *EntitySpec) {
 		t.Exts = append(t.Exts, ExtSpec{Kind: "extendedKeyUsage", Content: rawJSON([]string{"serverAuth"})})
